@@ -690,6 +690,8 @@ class LanguageCsharp(Language):
                         tuple0 = "ref " + tuples[0]
                     elif param["direction"].strip().find("out") > -1:
                         tuple0 = "out " + tuples[0]
+                    else:
+                        tuple0 = tuples[0]
 
                     tuple0 = tuple0.lstrip()
                     tuple1 = tuples[1]
